@@ -6,4 +6,9 @@ import MidoProofs.TableTie
 #print axioms Mido.C08_clip_valid
 #print axioms Mido.C08_clip_range
 #print axioms Mido.fixEot_last
+#print axioms Mido.C08_read_any
+#print axioms Mido.C08_clip_same_on_valid
+#print axioms Mido.C08_write_conforms
+#print axioms Mido.C08_roundtrip_via_spec
+#print axioms Mido.C08_writer_vlq
 #print axioms Mido.tie_max_len
